@@ -233,8 +233,9 @@ fn replay_debug(reg: &dyn Registry, r: &Value) -> i32 {
 fn replay_jitter(reg: &dyn Registry, r: &Value) -> i32 {
     let readings: Vec<u64> = r["readings"].as_array().map(|a| a.iter().filter_map(|x| x.as_u64()).collect()).unwrap_or_default();
     let ops = ops_of(&r["ops"]);
-    let a = c12::run_impl(reg, &readings, &ops);
-    let b = c12::run_model(&readings, &ops);
+    let pool = r["init_pool"].as_str().and_then(|s| s.parse::<u64>().ok());
+    let a = c12::run_impl_pool(reg, &readings, &ops, pool);
+    let b = c12::run_model_pool(&readings, &ops, pool);
     for i in 0..a.steps.len().max(b.steps.len()) {
         println!("  op {:2}: implementation {:?}   documented procedure {:?}", i, a.steps.get(i).map(|s| (s.0.to_json(), s.1)), b.steps.get(i).map(|s| (s.0.to_json(), s.1)));
     }
